@@ -1,74 +1,58 @@
 (* The labels of analysis-stage diagnostics (C04).
 
-   Every diagnostic of stage Analysis is built in /repo/src/analysis/event_consumer.rs (as of
-   17e6a01): the macros error!/warning! (lines 18-43) and SourceDiag::unlabeled in
-   src/analysis/mod.rs:66 (labels added by its callers at 264, 404-405, 770).  src/metadata.rs
-   builds no label (check_std_entry returns an error value that becomes the `source` of a
-   diagnostic).  This file enumerates every expression that becomes a label and gives each a
-   FORM; Model/Analysis.v (which only keeps the bit "an error was reported") is not extended.
+   Every diagnostic of stage Analysis is built in /repo/src/analysis/event_consumer.rs: the macros
+   error!/warning! (lines 19-43) and SourceDiag::unlabeled in src/analysis/mod.rs:66 (labels added by
+   its callers).  src/metadata.rs builds no label (check_std_entry returns an error value that becomes
+   the `source` of a diagnostic).  This file lists every expression that becomes the span of a label and
+   gives each a FORM; Model/Analysis.v (which only keeps the bit "an error was reported") is not extended.
 
-   line  label expression                                                    form
-   ----  ------------------------------------------------------------------  ---------------------
-   224   label!(span), span in old_style_metadata_used, pushed at 394 as
-         Span::new(key.span().start(), value.span().end())                   FJoinKV
-   246-8 Span::pos(yaml_text.span().start() + loc.index())                   FYamlErr  (oracle serde_yaml)
-   264   Span::pos(yaml_text.span().start() + yaml_find_key_position(..))    FYamlKey
-   290   the same                                                            FYamlKey
-   322   the same (prep time)                                                FYamlKey
-   325   the same (cook time)                                                FYamlKey
-   328   the same (time)                                                     FYamlKey
-   346   value.span()          (metadata value text)                         FPart PMetaValue
-   348   key.span()            (metadata key text)                           FPart PMetaKey
-   376   key.span()                                                          FPart PMetaKey
-   404   key.span()                                                          FPart PMetaKey
-   405   value.span()                                                        FPart PMetaValue
-   434   value.span()                                                        FPart PMetaValue
-   436   key.span()                                                          FPart PMetaKey
-   464   Span::new(e.0.span().start(), e.1.span().end()) of a stored
-         metadata entry; used as labels at 491, 494, 496                     FJoinKV
-   512   text.span()           (Text event)                                  FPart PText
-   574-80 i.span() / c.span() / t.span()  (component in text mode)           FPart PComp
-   618   ingredient.modifiers.span()                                         FPart PMods
-   656-63 unit.span() or quantity.span() of a stored ingredient and of the
-         new one; labels at 671, 674, 681, 684                               FPart PUnit / FPart PQuantity
-   703   note.span() -> note_reference_error 1434                            FPart PNote
-   705   definition_location.span() -> 1440 Span::pos(def_span.end())        FPosEnd PComp
-   706   definition note span -> 1437                                        FPart PNote
-   728   quantity.span() -> 1456                                             FPart PQuantity
-   729   definition_location.span() -> 1458                                  FPart PComp
-   742-3 quantity spans -> 1476, 1478                                        FPart PQuantity
-   770   label!(location)      (the ingredient's span)                       FPart PComp
-   797   inter_data.span()                                                   FPart PInter
-   804   inter_data.span()                                                   FPart PInter
-   814   inter_data.span()                                                   FPart PInter
-   920   located_cookware.modifiers.span() -> 1095, 1107                     FPart PMods
-   928   note.span() -> 1434                                                 FPart PNote
-   930   definition_location.span() -> 1440                                  FPosEnd PComp
-   931   definition note span -> 1437                                        FPart PNote
-   944   cookware quantity.span() -> 1456                                    FPart PQuantity
-   945   definition_location.span() -> 1458                                  FPart PComp
-   958-9 cookware quantity spans -> 1476, 1478                               FPart PQuantity
-   993   located_quantity.value.span()   (timer value)                       FPart PValue
-   1003  unit_span = located_quantity.unit.span()                            FPart PUnit
-   1013  unit_span                                                           FPart PUnit
-   1056  value.span()          (the Located<Value> of a QuantityValue)       FPart PValue
-   1095  modifiers_location (631: located_ingredient.modifiers.span())       FPart PMods
-   1107  modifiers_location                                                  FPart PMods
-   1215  label!(location)      (the component's span)                        FPart PComp
-   1434  label!(span)          (note text; before 17e6a01: start-1 .. end+1) FPart PNote   [FNoteOld before the repair]
-   1437, 1440, 1456, 1458, 1476, 1478: arguments listed at their call sites above.
+   The chain from the source to the placement theorem (each step is a theorem of Properties/C04.v):
 
-   Forms: [FPart p] is the span of part p of an event of the stream (the current one, or an
-   earlier one kept in self.locations); [FPosEnd p] is Span::pos of the end of such a span;
-   [FJoinKV] joins the start of a metadata key with the end of its value (same event);
-   [FYamlKey]/[FYamlErr] add a byte index into the front matter text to its offset.  No other
-   arithmetic on offsets remains (the `- 1` / `+ 1` of note_reference_error was removed by 17e6a01;
-   [FNoteOld] keeps it for the refutation). *)
+     source  --(gen/gen_labels.py, on every run)-->  Gen/LabelSites.sites : (fn, expression text)
+       C04_label_inventory            the inventory is the list written in Properties/C04.v
+       C04_label_inventory_classified  map fst label_table = LabelSites.sites: [label_table] below has one
+                                      row per inventory entry, in the same order, and gives the SITES
+                                      the entry's span can reach
+       C04_label_table_sites          the rows reach exactly the sites of [label_sites]
+       C04_analysis_labels_ok         every site of [label_sites] yields spans that are in bounds,
+                                      ordered and on character boundaries
+
+   A SITE is (id, form).  The id is the source line the expression had in event_consumer.rs as of
+   17e6a01; it is kept as a stable identifier (Model/AnalysisDiag.v, C07, attaches it to every label of
+   its decorated collector) and is no longer the current line: 200c896 moved everything below in_text
+   down by 14 lines, 45a4888 everything below process_frontmatter's error arm up by one.  The current
+   line (as of 45a4888) is the comment in front of each row of [label_table]; nothing depends on it.
+
+   Forms: [FPart p] is the span of part p of an event of the stream (the current one, or an earlier one
+   kept in self.locations); [FPosEnd p] is Span::pos of the end of such a span; [FJoinKV] joins the start
+   of a metadata key with the end of its value (same event); [FYamlKey] adds a byte index into the front
+   matter text (yaml_find_key_position) to the text's offset; [FYamlErr] is the label of a front matter
+   that serde_yaml rejects: the text's offset plus the index of the error's location, or - since 45a4888,
+   when the error has no location - the span of the whole front matter text.  No other arithmetic on
+   offsets remains (the `- 1` / `+ 1` of note_reference_error was removed by 17e6a01; [FNoteOld] keeps it
+   for the refutation).
+
+   How a span travels to its label when the label expression is only a name (the inventory shows the
+   nearest binder; the rest is read off the source):
+     parse_events `span`                 iterates self.old_style_metadata_used, pushed by `metadata` (393)
+     time_override_check `overrides`, `e`, `overriden.next()`
+                                         elements of locs(..): the Span::new of 463 over stored entries
+     ingredient `new` / `old`            unit.span() if the quantity has a unit, else quantity.span(), of the
+                                         new ingredient / of a stored one; main_label and support_label are
+                                         label!(new, ..) and label!(old, ..) in either order
+     resolve_reference `location`, `modifiers_location`
+                                         arguments at 645 (ingredient) and 934 (cookware)
+     note_reference_error, conflicting_reference_quantity_error, text_val_in_ref_warn
+                                         their Span parameters: arguments at 716-721, 741-745, 765-769
+                                         (ingredient) and 941-946, 957-961, 981-985 (cookware) *)
+From Coq Require String.
+Import String.StringSyntax.
 From CL Require Import Base.StrLemmas Model.Lexer Model.Parser.
 Open Scope N_scope.
 
 (* ------------------------------------------------------------------ yaml_find_key_position *)
-(* event_consumer.rs 1486-1507.  The only slice that can panic is k[start..]. *)
+(* event_consumer.rs 1500-1521 (1486-1507 as of 17e6a01).  The only slice that can panic is k[start..]
+   (line 1516; the site id is the line as of 17e6a01). *)
 Definition site_yaml_key_slice : N := 1502.
 
 (* str::split_inclusive('\n'): [cur] is the line being collected *)
@@ -186,7 +170,8 @@ Inductive form :=
 | FYamlErr
 | FNoteOld.      (* note_reference_error before 17e6a01: Span::new(start.saturating_sub(1), end + 1) *)
 
-(* source line of the label (or of the call that passes the span) and its form *)
+(* the sites: (id, form); the id is the source line of the label (or of the call that passes the span)
+   as of 17e6a01 - an identifier, see the header *)
 Definition label_sites : list (N * form) :=
   [ (224, FJoinKV); (248, FYamlErr); (264, FYamlKey); (290, FYamlKey); (322, FYamlKey); (325, FYamlKey);
     (328, FYamlKey); (346, FPart PMetaValue); (348, FPart PMetaKey); (376, FPart PMetaKey);
@@ -202,6 +187,221 @@ Definition label_sites : list (N * form) :=
     (993, FPart PValue); (1003, FPart PUnit); (1013, FPart PUnit); (1056, FPart PValue);
     (1095, FPart PMods); (1107, FPart PMods); (1215, FPart PComp) ].
 
+(* the classification of the inventory: one row per entry of Gen/LabelSites.sites (same order, same
+   strings: C04_label_inventory_classified), with the sites the entry's span reaches.  The comment in
+   front of a row is the line of the expression in event_consumer.rs as of 45a4888. *)
+Local Open Scope string_scope.
+Definition label_table : list (String.string * String.string * list (N * form)) := [
+  (*  224 *) ("parse_events",
+     "span <- for span in self.old_style_metadata_used",
+     [(224, FJoinKV)]);
+  (*  246 *) ("process_frontmatter",
+     "Span::pos(yaml_text.span().start() + loc.index())",
+     [(248, FYamlErr)]);
+  (*  248 *) ("process_frontmatter",
+     "err_span <- let err_span = err.location().map(|loc|Span::pos(yaml_text.span().start() + loc.index())).unwrap_or_else(||yaml_text.span())",
+     [(248, FYamlErr)]);
+  (*  263 *) ("process_frontmatter",
+     "Span::pos(yaml_text.span().start() + pos)",
+     [(264, FYamlKey)]);
+  (*  289 *) ("process_frontmatter",
+     "Span::pos(yaml_text.span().start() + pos)",
+     [(290, FYamlKey)]);
+  (*  321 *) ("process_frontmatter",
+     "Span::pos(yaml_text.span().start() + p)",
+     [(322, FYamlKey)]);
+  (*  324 *) ("process_frontmatter",
+     "Span::pos(yaml_text.span().start() + p)",
+     [(325, FYamlKey)]);
+  (*  327 *) ("process_frontmatter",
+     "Span::pos(yaml_text.span().start() + p)",
+     [(328, FYamlKey)]);
+  (*  345 *) ("metadata",
+     "value.span()",
+     [(346, FPart PMetaValue)]);
+  (*  347 *) ("metadata",
+     "key.span()",
+     [(348, FPart PMetaKey)]);
+  (*  375 *) ("metadata",
+     "key.span()",
+     [(376, FPart PMetaKey)]);
+  (*  393 *) ("metadata",
+     "Span::new(key.span().start(), value.span().end())",
+     [(224, FJoinKV)]);
+  (*  403 *) ("metadata",
+     "key.span()",
+     [(404, FPart PMetaKey)]);
+  (*  404 *) ("metadata",
+     "value.span()",
+     [(405, FPart PMetaValue)]);
+  (*  433 *) ("metadata",
+     "value.span()",
+     [(434, FPart PMetaValue)]);
+  (*  435 *) ("metadata",
+     "key.span()",
+     [(436, FPart PMetaKey)]);
+  (*  463 *) ("time_override_check",
+     "Span::new(e.0.span().start(), e.1.span().end())",
+     [(491, FJoinKV); (494, FJoinKV); (496, FJoinKV)]);
+  (*  490 *) ("time_override_check",
+     "overriden.next().unwrap()",
+     [(491, FJoinKV)]);
+  (*  493 *) ("time_override_check",
+     "e <- for e in overriden",
+     [(494, FJoinKV)]);
+  (*  495 *) ("time_override_check",
+     "overrides <- let overrides = locs(&[new])[0]",
+     [(496, FJoinKV)]);
+  (*  511 *) ("in_step",
+     "text.span()",
+     [(512, FPart PText)]);
+  (*  579 *) ("in_text",
+     "span <- let (c, span) = match ev{Event::Ingredient(i) => (<str>, i.span()), Event::Cookware(c) => (<str>, c.span()), Event::Timer(t) => (<str>, t.span()), _ => unreachable!(), }",
+     [(580, FPart PComp)]);
+  (*  632 *) ("ingredient",
+     "ingredient.modifiers.span()",
+     [(618, FPart PMods)]);
+  (*  645 *) ("ingredient",
+     "resolve_reference(location: location <- let (ingredient, location) = ingredient.take_pair())",
+     [(1215, FPart PComp)]);
+  (*  645 *) ("ingredient",
+     "resolve_reference(modifiers_location: located_ingredient.modifiers.span())",
+     [(1095, FPart PMods); (1107, FPart PMods)]);
+  (*  685 *) ("ingredient",
+     "new <- let new = new_q_loc.unit.as_ref().map(|l|l.span()).unwrap_or(new_q_loc.span())",
+     [(671, FPart PUnit); (671, FPart PQuantity)]);
+  (*  685 *) ("ingredient",
+     "old <- let old = old_q_loc.unit.as_ref().map(|l|l.span()).unwrap_or(old_q_loc.span())",
+     [(671, FPart PUnit); (671, FPart PQuantity)]);
+  (*  688 *) ("ingredient",
+     "new <- let new = new_q_loc.unit.as_ref().map(|l|l.span()).unwrap_or(new_q_loc.span())",
+     [(674, FPart PUnit); (674, FPart PQuantity)]);
+  (*  688 *) ("ingredient",
+     "old <- let old = old_q_loc.unit.as_ref().map(|l|l.span()).unwrap_or(old_q_loc.span())",
+     [(674, FPart PUnit); (674, FPart PQuantity)]);
+  (*  695 *) ("ingredient",
+     "new <- let new = new_q_loc.unit.as_ref().map(|l|l.span()).unwrap_or(new_q_loc.span())",
+     [(681, FPart PUnit); (681, FPart PQuantity)]);
+  (*  695 *) ("ingredient",
+     "old <- let old = old_q_loc.unit.as_ref().map(|l|l.span()).unwrap_or(old_q_loc.span())",
+     [(681, FPart PUnit); (681, FPart PQuantity)]);
+  (*  698 *) ("ingredient",
+     "new <- let new = new_q_loc.unit.as_ref().map(|l|l.span()).unwrap_or(new_q_loc.span())",
+     [(684, FPart PUnit); (684, FPart PQuantity)]);
+  (*  698 *) ("ingredient",
+     "old <- let old = old_q_loc.unit.as_ref().map(|l|l.span()).unwrap_or(old_q_loc.span())",
+     [(684, FPart PUnit); (684, FPart PQuantity)]);
+  (*  705 *) ("ingredient",
+     "warning!(.., main_label <- let (main_label, support_label) = match &e{crate::quantity::IncompatibleUnits::MissingUnit{lhs, ..} => {let m=<str>;let f=<str>;if *lhs{(label!(new, m), label!(old, f))} else {(label!(new, f), label!(old, m))}}crate::quantity::IncompatibleUnits::DifferentPhysicalQuantities{a:a_q, b:b_q, } => {(label!(new, b_q.to_string()), label!(old, a_q.to_string()))}crate::quantity::IncompatibleUnits::UnknownDifferentUnits{..} => {(label!(new), label!(old))}})",
+     [(671, FPart PUnit); (671, FPart PQuantity); (674, FPart PUnit); (674, FPart PQuantity); (681, FPart PUnit); (681, FPart PQuantity); (684, FPart PUnit); (684, FPart PQuantity)]);
+  (*  707 *) ("ingredient",
+     ".label(support_label <- let (main_label, support_label) = match &e{crate::quantity::IncompatibleUnits::MissingUnit{lhs, ..} => {let m=<str>;let f=<str>;if *lhs{(label!(new, m), label!(old, f))} else {(label!(new, f), label!(old, m))}}crate::quantity::IncompatibleUnits::DifferentPhysicalQuantities{a:a_q, b:b_q, } => {(label!(new, b_q.to_string()), label!(old, a_q.to_string()))}crate::quantity::IncompatibleUnits::UnknownDifferentUnits{..} => {(label!(new), label!(old))}})",
+     [(671, FPart PUnit); (671, FPart PQuantity); (674, FPart PUnit); (674, FPart PQuantity); (681, FPart PUnit); (681, FPart PQuantity); (684, FPart PUnit); (684, FPart PQuantity)]);
+  (*  717 *) ("ingredient",
+     "note_reference_error(span: note.span())",
+     [(703, FPart PNote)]);
+  (*  719 *) ("ingredient",
+     "note_reference_error(def_span: definition_location.span())",
+     [(705, FPosEnd PComp)]);
+  (*  720 *) ("ingredient",
+     "note_reference_error(def_note_span: definition_location.note.as_ref().map(|n|n.span()))",
+     [(706, FPart PNote)]);
+  (*  742 *) ("ingredient",
+     "conflicting_reference_quantity_error(ref_quantity_span: ingredient.quantity.unwrap().span())",
+     [(728, FPart PQuantity)]);
+  (*  743 *) ("ingredient",
+     "conflicting_reference_quantity_error(def_span: definition_location.span())",
+     [(729, FPart PComp)]);
+  (*  766 *) ("ingredient",
+     "text_val_in_ref_warn(text_quantity_span: text_quantity_span <- let (text_quantity_span, number_quantity_span) = if ref_is_text{(ref_q_loc, def_q_loc)} else {(def_q_loc, ref_q_loc)})",
+     [(742, FPart PQuantity); (743, FPart PQuantity)]);
+  (*  767 *) ("ingredient",
+     "text_val_in_ref_warn(number_quantity_span: number_quantity_span <- let (text_quantity_span, number_quantity_span) = if ref_is_text{(ref_q_loc, def_q_loc)} else {(def_q_loc, ref_q_loc)})",
+     [(742, FPart PQuantity); (743, FPart PQuantity)]);
+  (*  784 *) ("ingredient",
+     "location <- let (ingredient, location) = ingredient.take_pair()",
+     [(770, FPart PComp)]);
+  (*  811 *) ("resolve_intermediate_ref",
+     "inter_data.span()",
+     [(797, FPart PInter)]);
+  (*  818 *) ("resolve_intermediate_ref",
+     "inter_data.span()",
+     [(804, FPart PInter)]);
+  (*  828 *) ("resolve_intermediate_ref",
+     "inter_data.span()",
+     [(814, FPart PInter)]);
+  (*  934 *) ("cookware",
+     "resolve_reference(location: location <- let (cookware, location) = cookware.take_pair())",
+     [(1215, FPart PComp)]);
+  (*  934 *) ("cookware",
+     "resolve_reference(modifiers_location: located_cookware.modifiers.span())",
+     [(1095, FPart PMods); (1107, FPart PMods)]);
+  (*  942 *) ("cookware",
+     "note_reference_error(span: note.span())",
+     [(928, FPart PNote)]);
+  (*  944 *) ("cookware",
+     "note_reference_error(def_span: definition_location.span())",
+     [(930, FPosEnd PComp)]);
+  (*  945 *) ("cookware",
+     "note_reference_error(def_note_span: definition_location.note.as_ref().map(|n|n.span()))",
+     [(931, FPart PNote)]);
+  (*  958 *) ("cookware",
+     "conflicting_reference_quantity_error(ref_quantity_span: located_cookware.quantity.as_ref().unwrap().span())",
+     [(944, FPart PQuantity)]);
+  (*  959 *) ("cookware",
+     "conflicting_reference_quantity_error(def_span: definition_location.span())",
+     [(945, FPart PComp)]);
+  (*  982 *) ("cookware",
+     "text_val_in_ref_warn(text_quantity_span: text_quantity_span <- let (text_quantity_span, number_quantity_span) = if ref_is_text{(ref_q_loc, def_q_loc)} else {(def_q_loc, ref_q_loc)})",
+     [(958, FPart PQuantity); (959, FPart PQuantity)]);
+  (*  983 *) ("cookware",
+     "text_val_in_ref_warn(number_quantity_span: number_quantity_span <- let (text_quantity_span, number_quantity_span) = if ref_is_text{(ref_q_loc, def_q_loc)} else {(def_q_loc, ref_q_loc)})",
+     [(958, FPart PQuantity); (959, FPart PQuantity)]);
+  (* 1007 *) ("timer",
+     "located_quantity.value.span()",
+     [(993, FPart PValue)]);
+  (* 1018 *) ("timer",
+     "unit_span <- let unit_span = located_quantity.unit.as_ref().unwrap().span()",
+     [(1003, FPart PUnit)]);
+  (* 1027 *) ("timer",
+     "unit_span <- let unit_span = located_quantity.unit.as_ref().unwrap().span()",
+     [(1013, FPart PUnit)]);
+  (* 1070 *) ("value",
+     "value.span()",
+     [(1056, FPart PValue)]);
+  (* 1109 *) ("resolve_reference",
+     "modifiers_location <- fn parameter",
+     [(1095, FPart PMods)]);
+  (* 1121 *) ("resolve_reference",
+     "modifiers_location <- fn parameter",
+     [(1107, FPart PMods)]);
+  (* 1229 *) ("resolve_reference",
+     "location <- fn parameter",
+     [(1215, FPart PComp)]);
+  (* 1448 *) ("note_reference_error",
+     "span <- fn parameter",
+     [(703, FPart PNote); (928, FPart PNote)]);
+  (* 1451 *) ("note_reference_error",
+     "sp <- if let Some(sp) = def_note_span",
+     [(706, FPart PNote); (931, FPart PNote)]);
+  (* 1454 *) ("note_reference_error",
+     "Span::pos(def_span.end())",
+     [(705, FPosEnd PComp); (930, FPosEnd PComp)]);
+  (* 1470 *) ("conflicting_reference_quantity_error",
+     "ref_quantity_span <- fn parameter",
+     [(728, FPart PQuantity); (944, FPart PQuantity)]);
+  (* 1473 *) ("conflicting_reference_quantity_error",
+     "def_span <- fn parameter",
+     [(729, FPart PComp); (945, FPart PComp)]);
+  (* 1490 *) ("text_val_in_ref_warn",
+     "text_quantity_span <- fn parameter",
+     [(742, FPart PQuantity); (743, FPart PQuantity); (958, FPart PQuantity); (959, FPart PQuantity)]);
+  (* 1492 *) ("text_val_in_ref_warn",
+     "number_quantity_span <- fn parameter",
+     [(742, FPart PQuantity); (743, FPart PQuantity); (958, FPart PQuantity); (959, FPart PQuantity)])
+].
+Local Close Scope string_scope.
+
 (* the label sites of the code before 17e6a01: the note label of 703/928 had the old form *)
 Definition label_sites_before_17e6a01 : list (N * form) :=
   map (fun lf => if ((fst lf =? 703) || (fst lf =? 928)) then (fst lf, FNoteOld) else lf) label_sites.
@@ -209,7 +409,8 @@ Definition label_sites_before_17e6a01 : list (N * form) :=
 Definition pos (a : N) : span := (a, a).
 
 Section Produces.
-  (* serde_yaml's Error::location().index(): an oracle, Some i = the error has a location *)
+  (* serde_yaml's Error::location().map(|l| l.index()) for the error it gives on a text: an oracle,
+     Some i = the error has a location *)
   Variable yaml_err_index : str -> option N.
 
   (* the spans a label of form [f] can take on the stream [evs] *)
@@ -222,7 +423,13 @@ Section Produces.
         exists t key p, In (EvYaml t) evs /\ yaml_find_key_position (text_str t) key = Done (Some p) /\
                         sp = pos (fst (text_span t) + p)
     | FYamlErr =>
-        exists t i, In (EvYaml t) evs /\ yaml_err_index (text_str t) = Some i /\ sp = pos (fst (text_span t) + i)
+        (* event_consumer.rs 244-248: err.location().map(|loc| Span::pos(yaml_text.span().start() + loc.index()))
+           .unwrap_or_else(|| yaml_text.span()); before 45a4888 there was no label without a location *)
+        exists t, In (EvYaml t) evs /\
+                  match yaml_err_index (text_str t) with
+                  | Some i => sp = pos (fst (text_span t) + i)
+                  | None => sp = text_span t
+                  end
     | FNoteOld =>
         exists ev sp0, In ev evs /\ In sp0 (part_spans PNote ev) /\ sp = (fst sp0 - 1, snd sp0 + 1)
     end.
